@@ -72,7 +72,7 @@ let () = each_line (fun l ->
         if not (same_multiset it (iter m.st)) && gate_iter cur it then fail "model_inconsistent"
       | w -> failwith ("model: unknown step " ^ w)
     done;
-    (if !fails = [] then "OK" else "FAIL " ^ String.concat "," (List.rev !fails))
+    (match List.rev !fails with [] -> "OK" | [g] -> "FAIL " ^ g | g :: r -> "FAIL " ^ g ^ " also=" ^ String.concat "," r)
     ^ Printf.sprintf " reads=%d maxlive=%d" !reads !maxlive
     ^ (if !dup then " dup" else "") ^ (if !nullary then " nullary" else "") ^ (if !multiar then " multiarity" else "")
     ^ (if !finnorule then " final_without_rule" else "") ^ (if !read_after_clear then " read_after_clear" else ""))
